@@ -205,6 +205,52 @@ Theorem C13_open2n2_generated_addnogrow_throws_only_if_all_buckets_full :
 Proof. exact OpenInstances.open2n2_generated_addnogrow_full_only_if_all_full. Qed.
 Print Assumptions C13_open2n2_generated_addnogrow_throws_only_if_all_buckets_full.
 
+(* THE property on the regenerated search loop (HashSet::pvFind(indexCode, buckets, itemPred), Gen_HSFindIn.v, with the
+   regenerated GetMaxProbe / WasFull of the bucket): in every table reachable by insertions and removals, the regenerated
+   search finds every present key, in a bucket that holds it ... *)
+Theorem C13_open2n2_generated_find_finds_every_present_key :
+  forall mc n hash ops b k,
+  1 <= mc <= 3 -> 0 <= n <= 63 -> (forall k, 0 <= hash k) ->
+  let h := HSAddRefine.home n hash in
+  let s := fold_left (OpenInstances.o2_step mc n h) ops (OpenInstances.o2_empty mc) in
+  In k (OpenTable.bk _ s b) -> exists ic, OpenInstances.o2_gen_find n hash s k = Ok (1, ic) /\ In k (OpenTable.bk _ s ic).
+Proof. exact OpenInstances.open2n2_generated_find_finds_present. Qed.
+Print Assumptions C13_open2n2_generated_find_finds_every_present_key.
+Theorem C13_open8_openn1_generated_find_finds_every_present_key :
+  forall rv mc n hash ops b k,
+  1 <= mc <= 7 -> 0 <= n <= 63 -> (forall k, 0 <= hash k) ->
+  let h := HSAddRefine.home n hash in
+  let s := fold_left (OpenInstances.n1_step rv mc n h) ops (OpenInstances.n1_empty mc) in
+  In k (OpenTable.bk _ s b) -> exists ic, OpenInstances.n1_gen_find mc n hash s k = Ok (1, ic) /\ In k (OpenTable.bk _ s ic).
+Proof. exact OpenInstances.open8_generated_find_finds_present. Qed.
+Print Assumptions C13_open8_openn1_generated_find_finds_every_present_key.
+(* ... and reports a key that is in no bucket as absent (null iterator, the position carries the hash code) *)
+Theorem C13_open2n2_generated_find_reports_absent_key_absent :
+  forall mc n hash ops k,
+  1 <= mc <= 3 -> 0 <= n <= 63 ->
+  let h := HSAddRefine.home n hash in
+  let s := fold_left (OpenInstances.o2_step mc n h) ops (OpenInstances.o2_empty mc) in
+  (forall b, ~ In k (OpenTable.bk _ s b)) -> OpenInstances.o2_gen_find n hash s k = Ok (0, hash k).
+Proof. exact OpenInstances.open2n2_generated_find_absent. Qed.
+Print Assumptions C13_open2n2_generated_find_reports_absent_key_absent.
+Theorem C13_open8_openn1_generated_find_reports_absent_key_absent :
+  forall rv mc n hash ops k,
+  1 <= mc <= 7 -> 0 <= n <= 63 ->
+  let h := HSAddRefine.home n hash in
+  let s := fold_left (OpenInstances.n1_step rv mc n h) ops (OpenInstances.n1_empty mc) in
+  (forall b, ~ In k (OpenTable.bk _ s b)) -> OpenInstances.n1_gen_find mc n hash s k = Ok (0, hash k).
+Proof. exact OpenInstances.open8_generated_find_absent. Qed.
+Print Assumptions C13_open8_openn1_generated_find_reports_absent_key_absent.
+(* on ANY table (no reachability): the regenerated search gives the verdict of the model's search over home, probe 1 ..
+   probe GetMaxProbe(home), and a reported bucket really holds the key *)
+Theorem C13_open2n2_generated_find_is_model_find :
+  forall n hash s k r ic,
+  0 <= n <= 63 -> 0 <= BucketOps.O2.dec (OpenTable.bd _ s (HSFindRefine.home n hash k)) < 2 ^ 64 - 1 ->
+  OpenInstances.o2_gen_find n hash s k = Ok (r, ic) ->
+  (r <> 0 <-> OpenInstances.o2_find n (HSFindRefine.home n hash) s k = true) /\ (r <> 0 -> In k (OpenTable.bk _ s ic)).
+Proof. exact OpenInstances.open2n2_generated_find_is_model. Qed.
+Print Assumptions C13_open2n2_generated_find_is_model_find.
+
 (* The encoder and probe-step code regenerated from BucketOpen2N2<.,1,true>, <.,2,true> and <.,3,false> is
    syntactically the code the theorems above are about (<.,3,true>): they hold for Open2N2<1..3>, both variants. *)
 Theorem C13_open2n2_all_instantiations_same_code :
